@@ -250,6 +250,7 @@ def _objects():
         "PhyloNode": make_tree("((a:1,b:2):3,(c:4,d:5):6);"),
         "Table": make_table(header=["a", "b"], data=[[1, "x"], [2, "y,z"]]),
         "DictArray": DictArrayTemplate(["r1", "r2"], ["c1", "c2"]).wrap([[1, 2], [3, 4]]),
+        "Table_badcell": make_table(header=["a", "b"], data=[[1, {"x"}], [2, object()]]),  # cells json cannot hold
     }
     return objs
 
@@ -262,7 +263,7 @@ WRITERS = {
     "new Alignment.write": ("new Alignment", ["x.fasta", "x.fasta.gz"], {}),
     "new SequenceCollection.write": ("new SequenceCollection", ["x.fasta", "x.fasta.bz2"], {}),
     "PhyloNode.write": ("PhyloNode", ["x.nwk", "x.json", "x.nwk.gz", "x.nwk.zip"], {}),
-    "Table.write": ("Table", ["x.tsv", "x.csv", "x.tsv.gz", "x.pickle", "x.tsv.zip"], {}),
+    "Table.write": ("Table", ["x.tsv", "x.csv", "x.tsv.gz", "x.pickle", "x.tsv.zip", "x.json"], {}),
     "DictArray.write": ("DictArray", ["x.tsv", "x.tsv.gz"], {}),
     "TreeCollection.write": ("TreeCollection", ["x.trees"], {}),
     "atomic_write": ("atomic_write", ["x.txt", "x.txt.gz", "x.txt.bz2"], {}),
@@ -282,6 +283,7 @@ FORMAT_FAILURES = {
     "new SequenceCollection.write(format unknown)": ("new SequenceCollection", "x.fasta", {"format": "nosuchformat"}),
     "TreeCollection.write(second entry cannot be formatted)": ("TreeCollection_bad_second", "x.trees", {}),
     "Table.write(writer raises)": ("Table", "x.tsv", {"writer": _failing_writer}),
+    "Table.write(json, unserialisable cell)": ("Table_badcell", "x.json", {}),
     "atomic_write(body raises)": ("atomic_write_raises", "x.txt", {}),
     "PhyloNode.write(json, unserialisable param)": ("PhyloNode_badparam", "x.json", {}),
     "DictArray.write(format unknown)": ("DictArray", "x.tsv", {"format": "nosuchformat"}),
